@@ -12,6 +12,8 @@ pub mod c11;
 pub mod c12;
 pub mod c13;
 pub mod c14;
+pub mod c15;
+pub mod c16;
 pub mod c17;
 
 use crate::pool::Merged;
@@ -36,6 +38,11 @@ pub struct Prop {
 impl Prop {
     /// Stack of the thread that runs the interpreter. C05 uses an ordinary 8 MiB stack (what a user's
     /// process has), so that native-stack exhaustion is seen as the crash it is.
+    /// Does this check also run under the debug-assertion / overflow-check build of the harness?
+    pub fn both_profiles(&self) -> bool {
+        self.id == "C15" || self.id == "C16"
+    }
+
     pub fn stack_bytes(&self) -> usize {
         if self.id == "C05" {
             8 << 20
@@ -46,7 +53,7 @@ impl Prop {
 }
 
 pub fn registry() -> Vec<Prop> {
-    vec![c01::prop(), c02::prop(), c03::prop(), c04::prop(), c05::prop(), c06::prop(), c07::prop(), c08::prop(), c09::prop(), c10::prop(), c11::prop(), c12::prop(), c13::prop(), c14::prop(), c17::prop()]
+    vec![c01::prop(), c02::prop(), c03::prop(), c04::prop(), c05::prop(), c06::prop(), c07::prop(), c08::prop(), c09::prop(), c10::prop(), c11::prop(), c12::prop(), c13::prop(), c14::prop(), c15::prop(), c16::prop(), c17::prop()]
 }
 
 pub fn find(id: &str) -> Option<Prop> {
